@@ -1519,6 +1519,11 @@ def worker_lazyjson(arg):
 # ----------------------------------------------------------------------------------------
 
 
+def worker_any(task):
+    kind, arg = task
+    return worker_machine(arg) if kind == "machine" else worker_lazyjson(arg)
+
+
 def check_case(case, exclude=()):
     if case.get("backend") == "lazyjson":
         return check_lazyjson(case)
@@ -1563,26 +1568,24 @@ def main(run):
     open_ids = sorted(run.known_open)
     quick = run.tier == "quick"
     nw_json, nw_sql, nw_lj = (4, 3, 1) if quick else (8, 6, 2)
-    n_json = run.n(700, 24000)
-    n_sql = run.n(400, 15000)
-    n_lj = run.n(2500, 80000)
+    n_json = run.n(900, 24000)
+    n_sql = run.n(600, 15000)
+    n_lj = run.n(3000, 80000)
     steps = run.n(40, 60)
     batches = run.n(2, 8)
-    args = []
+    tasks = []
     for w in range(nw_json):
-        args.append(("json", common.worker_seed(run.seed, w), n_json // nw_json, steps, batches,
-                     os.path.join(run.scratch, "j%d" % w), open_ids))
+        tasks.append(("machine", ("json", common.worker_seed(run.seed, w), n_json // nw_json, steps, batches,
+                                  os.path.join(run.scratch, "j%d" % w), open_ids)))
     for w in range(nw_sql):
-        args.append(("sqlite", common.worker_seed(run.seed, 100 + w), n_sql // nw_sql, steps, batches,
-                     os.path.join(run.scratch, "s%d" % w), open_ids))
-    for a in args:
-        os.makedirs(a[5], exist_ok=True)
-    common.pool_map(run, __name__, "worker_machine", args, procs=len(args))
-    largs = [(common.worker_seed(run.seed, 200 + w), n_lj // nw_lj, os.path.join(run.scratch, "l%d" % w), open_ids)
-             for w in range(nw_lj)]
-    for a in largs:
-        os.makedirs(a[2], exist_ok=True)
-    common.pool_map(run, __name__, "worker_lazyjson", largs, procs=len(largs))
+        tasks.append(("machine", ("sqlite", common.worker_seed(run.seed, 100 + w), n_sql // nw_sql, steps, batches,
+                                  os.path.join(run.scratch, "s%d" % w), open_ids)))
+    for w in range(nw_lj):
+        tasks.append(("lazyjson", (common.worker_seed(run.seed, 200 + w), n_lj // nw_lj,
+                                   os.path.join(run.scratch, "l%d" % w), open_ids)))
+    for kind, a in tasks:
+        os.makedirs(a[5] if kind == "machine" else a[2], exist_ok=True)
+    common.pool_map(run, __name__, "worker_any", tasks, procs=len(tasks))
 
     h = run.stats.hist
     nj, ns = h.get("json-history", 0), h.get("sqlite-history", 0)
